@@ -29,35 +29,49 @@ def classify(ctx: HandlerContext) -> Classification:
     if len(tokens) < 2:
         return Classification("allow", description="fd")
 
-    # Check if any execution flag is present
-    exec_flag_idx = None
-    exec_flag = None
-    for i, token in enumerate(tokens[1:], start=1):
+    # fd runs every -x/-X clause; a clause ends at ";" (or with the command line)
+    clauses: list[str] = []
+    description = None
+    i = 1
+    while i < len(tokens):
+        token = tokens[i]
+        exec_flag = None
+        head: list[str] = []
         if token in EXEC_FLAGS:
-            exec_flag_idx = i
             exec_flag = token
-            break
+        elif token.startswith(("--exec=", "--exec-batch=")):
+            # --exec=cmd: the value is the first word of the command
+            exec_flag, _, value = token.partition("=")
+            head = [value]
+        elif (
+            token.startswith("-")
+            and not token.startswith("--")
+            and len(token) > 2
+            and ("x" in token or "X" in token)
+        ):
+            # -Hx cmd, -xcmd: combined and attached forms are not taken apart
+            return Classification("ask", description=f"fd {token}")
+        if exec_flag is None:
+            i += 1
+            continue
+
+        end = i + 1
+        while end < len(tokens) and tokens[end] != ";":
+            end += 1
+        inner_tokens = head + tokens[i + 1 : end]
+        flag_desc = FLAG_DISPLAY.get(exec_flag, exec_flag)
+        if not inner_tokens:
+            return Classification("ask", description=f"fd {flag_desc} (no command)")
+        clauses.append(bash_join(inner_tokens))
+        if description is None:
+            description = f"fd {flag_desc} {inner_tokens[0]}"
+        i = end + 1
 
     # No execution flag - just a search, safe to approve
-    if exec_flag_idx is None:
+    if not clauses:
         return Classification("allow", description="fd")
 
-    # Extract inner command after the execution flag
-    inner_start = exec_flag_idx + 1
-    if inner_start >= len(tokens):
-        flag_desc = FLAG_DISPLAY.get(exec_flag, exec_flag)
-        return Classification("ask", description=f"fd {flag_desc} (no command)")
-
-    inner_tokens = tokens[inner_start:]
-    if not inner_tokens:
-        flag_desc = FLAG_DISPLAY.get(exec_flag, exec_flag)
-        return Classification("ask", description=f"fd {flag_desc} (no command)")
-
-    # Delegate to inner command check
-    inner_cmd = bash_join(inner_tokens)
-    flag_desc = FLAG_DISPLAY.get(exec_flag, exec_flag)
+    # Delegate to inner command check: all clauses must be acceptable
     return Classification(
-        "delegate",
-        inner_command=inner_cmd,
-        description=f"fd {flag_desc} {inner_tokens[0]}",
+        "delegate", inner_command=" ; ".join(clauses), description=description
     )
